@@ -3,8 +3,8 @@
    and Gen/C46_equiv.v.  Text is a list of code points; durations are microseconds. *)
 From Coq Require Import List ZArith NArith Bool String.
 Import ListNotations.
-From TV Require Import Lib.Obs C46.Model C46.Run C46.ProofsNum C46.ProofsDate C46.ProofsCheck
-  Gen.C46_src Gen.C46_equiv.
+From TV Require Import Lib.Obs C46.Model C46.Run C46.ProofsNum C46.ProofsDate C46.ProofsCal C46.ProofsText
+  C46.ProofsCheck Gen.C46_src Gen.C46_equiv.
 Local Open Scope Z_scope.
 
 (* ---------------------------------------------------------------------- *)
@@ -159,6 +159,137 @@ Qed.
 Print Assumptions C46_subsecond_nearest_refuted.
 
 (* ---------------------------------------------------------------------- *)
+(* the TEXT of format_date in every branch, format_day, list, get_closest  *)
+(* ---------------------------------------------------------------------- *)
+
+(* format_date returns a string for every now/date/gmt_offset/flags and clock
+   kind: no IndexError on the month/weekday tables, no KeyError in the format
+   substitution, no fuel exhaustion. *)
+Theorem C46_format_date_text_total : forall (clk : clock) (i : dinput),
+  exists s, date_text clk i = Some s.
+Proof. exact date_text_total. Qed.
+Print Assumptions C46_format_date_text_total.
+
+(* Text-level form of the first date clause: whenever an absolute format is
+   chosen (full_format, relative=False, a day or more ago, 60 s or more ahead)
+   the returned string does not end in " ago" and is not a relative phrase. *)
+Theorem C46_absolute_text_is_not_a_relative_phrase : forall clk i c sh,
+  format_date i = Abs c sh ->
+  exists s, date_text clk i = Some s /\ ends_with_ago s = false /\ parse_phrase s = None.
+Proof.
+  intros clk i c sh H. destruct (absolute_text_spec clk i c sh H) as (s & Hs & _ & Ha & Hp). eauto.
+Qed.
+Print Assumptions C46_absolute_text_is_not_a_relative_phrase.
+
+Theorem C46_future_text_is_never_a_relative_phrase : forall clk i,
+  60 * 1000000 <= d_delta i ->
+  exists s, date_text clk i = Some s /\ ends_with_ago s = false /\ parse_phrase s = None.
+Proof.
+  intros clk i H. apply (C46_absolute_text_is_not_a_relative_phrase clk i AFull (d_shorter i)).
+  apply future_is_full. exact H.
+Qed.
+Print Assumptions C46_future_text_is_never_a_relative_phrase.
+
+(* conversely every relative phrase ends in " ago" *)
+Theorem C46_relative_phrases_end_in_ago : forall s r, parse_phrase s = Some r -> ends_with_ago s = true.
+Proof. exact parse_phrase_ends_ago. Qed.
+Print Assumptions C46_relative_phrases_end_in_ago.
+
+(* The absolute text is the chosen template filled with the fields of the LOCAL
+   instant t: month name / weekday name by table lookup (always in range), day
+   and year in decimal, and the time of day. *)
+Theorem C46_absolute_text_fields : forall clk i c sh,
+  format_date i = Abs c sh ->
+  let t := local_date i in
+  let dn := t / us_per_day in
+  let '(y, m, d) := civil_from_days dn in
+  exists mn wd ds ys tm,
+    date_text clk i = Some (abs_text c sh mn wd ds ys tm) /\
+    index_name months (m - 1) = Some mn /\ index_name weekdays (weekday_of_days dn) = Some wd /\
+    py_str_int d = Some ds /\ py_str_int y = Some ys /\
+    str_time clk ((t mod us_per_day) / (3600 * us_per_s)) (((t mod us_per_day) / (60 * us_per_s)) mod 60) = Some tm.
+Proof.
+  intros clk i c sh H. cbv zeta.
+  destruct (date_env_some clk (local_date i)) as (mn & wd & d & yr & tm & He & Hmn & _ & Hwd & _ & Hd & Hy & Ht & _).
+  destruct (civil_from_days (local_date i / us_per_day)) as [[y m] dd] eqn:Ec. cbn [fst snd] in *.
+  exists mn, wd, d, yr, tm. unfold date_text. rewrite H, He. cbn [bind]. rewrite format_template. auto 10.
+Qed.
+Print Assumptions C46_absolute_text_fields.
+
+(* The calendar: for EVERY day number the (year, month, day) computed has
+   month in 1..12, day in 1..31 and is the civil date whose textbook day count
+   is that day number; weekdays advance cyclically from Thursday 1970-01-01. *)
+Theorem C46_calendar_is_correct : forall z : Z,
+  let '(y, m, d) := civil_from_days z in
+  1 <= m <= 12 /\ 1 <= d <= 31 /\ days_from_civil y m d = z.
+Proof.
+  intro z. pose proof (civil_bounds z) as Hb. pose proof (civil_roundtrip z) as Hr.
+  destruct (civil_from_days z) as [[y m] d]. split; [apply Hb|]. split; [apply Hb | exact Hr].
+Qed.
+Print Assumptions C46_calendar_is_correct.
+
+Theorem C46_weekday_cycle : forall z : Z,
+  0 <= weekday_of_days z <= 6 /\ weekday_of_days (z + 1) = (weekday_of_days z + 1) mod 7 /\ weekday_of_days 0 = 3.
+Proof. intro z. split; [apply weekday_range|]. split; [apply weekday_succ | reflexivity]. Qed.
+Print Assumptions C46_weekday_cycle.
+
+(* 12-hour clock: for every instant the hour is 0..23, the minute 0..59, the
+   displayed hour `hour % 12 or 12` is 1..12 and, with am/pm = (hour >= 12),
+   determines the hour. *)
+Theorem C46_twelve_hour_clock : forall t : Z,
+  let tod := t mod us_per_day in
+  let h := tod / (3600 * us_per_s) in
+  0 <= h < 24 /\ 0 <= (tod / (60 * us_per_s)) mod 60 < 60 /\
+  1 <= hour12 h <= 12 /\ hour12 h mod 12 + (if 12 <=? h then 12 else 0) = h.
+Proof.
+  intro t. cbv zeta. destruct (tod_fields t) as [Hh Hm].
+  split; [exact Hh|]. split; [exact Hm|]. apply hour12_spec. exact Hh.
+Qed.
+Print Assumptions C46_twelve_hour_clock.
+
+(* format_day always returns "[Weekday, ]Month D" of the local civil day. *)
+Theorem C46_format_day_text : forall (date gmt : Z) (dow : bool),
+  let dn := (date - gmt * 60 * us_per_s) / us_per_day in
+  exists mn wd d,
+    format_day date gmt dow = Some (day_text dow mn wd d) /\
+    index_name months (snd (fst (civil_from_days dn)) - 1) = Some mn /\
+    index_name weekdays (weekday_of_days dn) = Some wd /\
+    py_str_int (snd (civil_from_days dn)) = Some d.
+Proof. exact format_day_spec. Qed.
+Print Assumptions C46_format_day_text.
+
+(* Locale.list: "", the single part, or "<all but last joined by the comma> and <last>". *)
+Theorem C46_list_text : forall (fa : bool) (parts : list (list N)),
+  locale_list fa parts =
+  Some match parts with
+       | [] => []
+       | [p] => p
+       | _ => join (list_comma fa) (removelast parts) ++ codes " and " ++ last parts []
+       end.
+Proof. exact locale_list_spec. Qed.
+Print Assumptions C46_list_text.
+
+(* get_closest: for every supported set and request list the chosen code is a
+   supported one or the default (so Locale.get's assertion cannot fail when the
+   default is supported); empty requests are skipped; a request whose
+   normalised "ll_CC" form is supported wins over everything after it. *)
+Theorem C46_get_closest_is_supported_or_default : forall sup cs,
+  mem_text (get_closest sup cs) sup = true \/ get_closest sup cs = default_locale.
+Proof. exact get_closest_supported. Qed.
+Print Assumptions C46_get_closest_is_supported_or_default.
+
+Theorem C46_get_closest_first_match : forall sup code rest p0 p1,
+  code <> [] -> split_us code = [p0; p1] ->
+  mem_text (map ascii_lower p0 ++ [95%N] ++ map ascii_upper p1) sup = true ->
+  get_closest sup (code :: rest) = map ascii_lower p0 ++ [95%N] ++ map ascii_upper p1.
+Proof. exact get_closest_first_match. Qed.
+Print Assumptions C46_get_closest_first_match.
+
+Example C46_get_closest_example :
+  get_closest [codes "en_US"; codes "pt_BR"] [codes ""; codes "pt-br"; codes "en"] = codes "pt_BR".
+Proof. vm_compute. reflexivity. Qed.
+
+(* ---------------------------------------------------------------------- *)
 (* ties to the checker and to the source text                              *)
 (* ---------------------------------------------------------------------- *)
 
@@ -175,9 +306,18 @@ Theorem C46_source_matches_model :
   src_english_codes = [codes "en"; codes "en_US"] /\
   src_skew_seconds = skew_seconds /\
   (forall seconds, src_relative seconds =
-     let '(u, n) := relative_phrase seconds in (singular_msg u, plural_suffix u, n)).
+     let '(u, n) := relative_phrase seconds in (singular_msg u, plural_suffix u, n)) /\
+  (forall days same_day relative shorter,
+     match src_format_choice days same_day relative shorter with
+     | Some f => f | None => src_full_format shorter
+     end = template (abs_class days same_day relative) shorter) /\
+  src_day_templates = [day_template true; day_template false] /\
+  (forall fa parts, src_locale_list fa parts = locale_list fa parts) /\
+  src_default_locale = default_locale.
 Proof.
   split; [exact src_friendly_number_eq|]. split; [exact src_english_codes_eq|].
-  split; [exact src_skew_eq | exact src_relative_eq].
+  split; [exact src_skew_eq|]. split; [exact src_relative_eq|].
+  split; [exact src_format_choice_eq|]. split; [exact src_day_templates_eq|].
+  split; [exact src_locale_list_eq | apply src_list_constants_eq].
 Qed.
 Print Assumptions C46_source_matches_model.
